@@ -196,8 +196,8 @@ def hashable : Val → Bool
   | .row _ => false
   | _ => true
 
-/-- Python `<` ; `none` = TypeError -/
-def pyLt (a b : Val) : Option Bool :=
+/-- ordering of two scalars: `some true` if a < b, `none` = TypeError -/
+def scalarLt (a b : Val) : Option Bool :=
   match a, b with
   | .str x, .str y => some (x < y)
   | .date x, .date y => some (x.lt y)
@@ -207,8 +207,32 @@ def pyLt (a b : Val) : Option Bool :=
     | some x, some y => some (numLt x y)
     | _, _ => Option.none
 
+mutual
+/-- Python `<` ; `none` = TypeError.  Lists compare lexicographically: the first pair of elements that
+are not `==` decides (and must itself be orderable); otherwise the shorter list is smaller. -/
+def pyLt : Val → Val → Option Bool
+  | .list xs, b => (match b with | .list ys => listLt xs ys | _ => Option.none)
+  | a, b => (match b with | .list _ => Option.none | _ => scalarLt a b)
+def listLt : List Val → List Val → Option Bool
+  | [], ys => some (!ys.isEmpty)
+  | x :: xs, ys =>
+    (match ys with
+     | [] => some false
+     | y :: ys' => if pyEq x y then listLt xs ys' else pyLt x y)
+end
+
+/-- Python `<=` -/
 def pyLe (a b : Val) : Option Bool :=
   match a, b with
+  | .list _, .list _ =>
+    -- `a <= b` on lists: lexicographic; equal lists are `<=`
+    (match pyLt a b with
+     | some true => some true
+     | some false => (match pyLt b a with
+        | some true => some false
+        | some false => some true      -- neither smaller: equal up to `==`… or unordered NaN-like elements (outside the model)
+        | Option.none => Option.none)
+     | Option.none => Option.none)
   | .str x, .str y => some (x ≤ y)
   | .date x, .date y => some (x.lt y || x == y)
   | .tdelta x, .tdelta y => some (x ≤ y)
@@ -237,6 +261,9 @@ def repeatStr (s : String) : Nat → String
   | 0 => ""
   | n + 1 => s ++ repeatStr s n
 
+/-- timedelta range check (|days| ≤ 999999999) -/
+def tdOk (d : Int) : Except Err Val := if d.natAbs > 999999999 then .error (.py .overflowError) else .ok (.tdelta d)
+
 /-- `left <op> right` for the three operators the evaluator passes straight to Python -/
 def pyArith (op : BinOp) (a b : Val) : Except Err Val :=
   match op with
@@ -250,7 +277,7 @@ def pyArith (op : BinOp) (a b : Val) : Except Err Val :=
       match ofOrdinal o.toNat with
       | some d' => .ok (.date d')
       | Option.none => .error (.py .overflowError)
-    | .tdelta x, .tdelta y => .ok (.tdelta (x + y))
+    | .tdelta x, .tdelta y => tdOk (x + y)
     | _, _ =>
       match asNumber a, asNumber b with
       | some (.i x), some (.i y) => .ok (.int (x + y))
@@ -269,7 +296,7 @@ def pyArith (op : BinOp) (a b : Val) : Except Err Val :=
       match ofOrdinal o.toNat with
       | some d' => .ok (.date d')
       | Option.none => .error (.py .overflowError)
-    | .tdelta x, .tdelta y => .ok (.tdelta (x - y))
+    | .tdelta x, .tdelta y => tdOk (x - y)
     | _, _ =>
       match asNumber a, asNumber b with
       | some (.i x), some (.i y) => .ok (.int (x - y))
@@ -293,7 +320,7 @@ def pyArith (op : BinOp) (a b : Val) : Except Err Val :=
        | _ => .error (.py .typeError))
     | .tdelta d, n | n, .tdelta d =>
       (match n with
-       | .int k => .ok (.tdelta (d * k))
+       | .int k => tdOk (d * k)
        | .bool k => .ok (.tdelta (if k then d else 0))
        | .flt _ => .error (.unmodelled "timedelta * float")
        | _ => .error (.py .typeError))
@@ -329,8 +356,8 @@ def pyArith (op : BinOp) (a b : Val) : Except Err Val :=
       | some x, some y =>
         (match x, y with
          | .i n, _ | _, .i n => if n.natAbs ≥ 2 ^ 53 then .error (.unmodelled "big int with float") else
-            .ok (.flt (B (floatMod (numToFloat x) (numToFloat y))))
-         | _, _ => .ok (.flt (B (floatMod (numToFloat x) (numToFloat y)))))
+            .error (.unmodelled "float-mod")        -- float `%` goes through the `fmod` oracle (see Expr.eval)
+         | _, _ => .error (.unmodelled "float-mod"))
       | _, _ => .error (.py .typeError)
 
 /-- `right == 0` as the evaluator tests it before `/` and `%` (Python equality with the int 0) -/
